@@ -116,12 +116,102 @@ pub mod bincode {
     pub struct Error { k: usize }
     pub type Result<T> = core::result::Result<T, Error>;
 }
-pub mod tokio { pub mod task {
-    use super::super::*;
+/// ghost log of one background task (C18): wake-ups after a completed sleep, hand-offs to the blocking pool, the last sleep
+pub struct BgLog { pub ghost ticks: nat, pub ghost blocking_calls: nat, pub ghost last_sleep_ms: int }
+pub mod tokio {
+    pub mod task {
+        use super::super::*;
+        #[verifier::external_body]
+        #[derive(Debug)]
+        pub struct JoinError { k: usize }
+        /// tokio::task::spawn_blocking after rule R-outline: the closure body has run at the call site; awaiting the handle yields its
+        /// value or a JoinError (runtime shutting down)
+        #[verifier::external_body]
+        pub async fn spawn_blocking<T>(v: T, Tracked(b): Tracked<&mut BgLog>) -> (r: Result<T, JoinError>)
+            ensures r matches Ok(x) ==> x == v,
+                    final(b).blocking_calls == old(b).blocking_calls + 1, final(b).ticks == old(b).ticks, final(b).last_sleep_ms == old(b).last_sleep_ms
+        { unimplemented!() }
+    }
+    pub mod time {
+        use super::super::*;
+        /// tokio::time::sleep: completes after (at least) the given duration; how much later is the runtime's business
+        #[verifier::external_body]
+        pub async fn sleep(d: super::super::time::Duration, Tracked(b): Tracked<&mut BgLog>) -> (r: ())
+            ensures final(b).ticks == old(b).ticks + 1, final(b).last_sleep_ms == d.ms(), final(b).blocking_calls == old(b).blocking_calls
+        { unimplemented!() }
+    }
+}
+/// std::time::Duration as a number of milliseconds (sub-millisecond precision is irrelevant to the contracts)
+pub mod time {
+    use super::*;
     #[verifier::external_body]
-    #[derive(Debug)]
-    pub struct JoinError { k: usize }
-} }
+    #[derive(Clone, Copy)]
+    pub struct Duration { k: usize }
+    impl Duration {
+        pub uninterp spec fn ms(&self) -> int;
+        #[verifier::external_body]
+        pub fn from_millis(ms: u64) -> (r: Duration) ensures r.ms() == ms { unimplemented!() }
+        #[verifier::external_body]
+        pub fn from_secs(s: u64) -> (r: Duration) ensures r.ms() == s * 1000 { unimplemented!() }
+        #[verifier::external_body]
+        pub fn from_micros(us: u64) -> (r: Duration) ensures r.ms() == us / 1000 { unimplemented!() }
+        /// panics on a negative or non-finite factor; for a factor in [0, 1] the result is not longer than self
+        #[verifier::external_body]
+        pub fn mul_f64(self, f: f64) -> (r: Duration)
+            requires unit_range(f),   //@[C18.jitter.factor_in_unit_range]
+            ensures 0 <= r.ms() <= self.ms()
+        { unimplemented!() }
+        /// `a - b` (rule R-duration-op): panics when b > a
+        #[verifier::external_body]
+        pub fn verif_sub(self, o: Duration) -> (r: Duration)
+            requires self.ms() >= o.ms(),
+            ensures r.ms() == self.ms() - o.ms()
+        { unimplemented!() }
+        /// `a + b` (rule R-duration-op; overflow of the 64-bit seconds counter is out of reach for millisecond configurations)
+        #[verifier::external_body]
+        pub fn verif_add(self, o: Duration) -> (r: Duration) ensures r.ms() == self.ms() + o.ms() { unimplemented!() }
+    }
+}
+/// 0.0 <= f <= 1.0 (f64 is outside Verus's subset: an uninterpreted predicate; the documented range of merge.check_jitter)
+pub uninterp spec fn unit_range(f: f64) -> bool;
+pub mod rand {
+    use super::*;
+    #[verifier::external_body]
+    pub struct ThreadRng { k: usize }
+    #[verifier::external_body]
+    pub fn thread_rng() -> ThreadRng { unimplemented!() }
+    pub mod distributions {
+        use super::super::*;
+        #[verifier::external_body]
+        #[verifier::reject_recursive_types(T)]
+        pub struct Uniform<T> { t: core::marker::PhantomData<T> }
+        impl Uniform<time::Duration> {
+            pub uninterp spec fn lo(&self) -> int;
+            pub uninterp spec fn hi(&self) -> int;
+            /// panics when low > high
+            #[verifier::external_body]
+            pub fn new_inclusive(lo: time::Duration, hi: time::Duration) -> (r: Self)
+                requires lo.ms() <= hi.ms(),
+                ensures r.lo() == lo.ms(), r.hi() == hi.ms()
+            { unimplemented!() }
+            #[verifier::external_body]
+            pub fn sample(&self, rng: &mut super::ThreadRng) -> (r: time::Duration) ensures self.lo() <= r.ms() <= self.hi() { unimplemented!() }
+        }
+    }
+}
+/// crate::shutdown::Shutdown (verified in unit slots): the flag and the wait for the signal
+#[verifier::external_body]
+pub struct Shutdown { k: usize }
+impl Shutdown {
+    pub uninterp spec fn fired(&self) -> bool;
+    #[verifier::external_body]
+    pub fn is_shutdown(&self) -> (r: bool) ensures r == self.fired() { unimplemented!() }
+    #[verifier::external_body]
+    pub async fn recv(&mut self) -> (r: ()) ensures final(self).fired() { unimplemented!() }
+}
+/// rule R-select: which arm of a tokio::select! runs
+#[verifier::external_body]
+pub fn verif_select(n: usize) -> (r: usize) ensures r < n { unimplemented!() }
 
 /// T11: what bincode writes for an entry is determined by these views (stands for the serde derives
 /// of DataFileEntry / HintFileEntry, which rule R-derive drops).
@@ -401,6 +491,33 @@ pub mod broadcast {
 pub mod verif_thread {
     #[verifier::external_body]
     pub fn spawn_background<H, S>(h: H, s: S) -> super::io::Result<()> { unimplemented!() }
+}
+
+/// `a > b` on f64 (rule R-f64-cmp): Verus leaves float comparison unspecified; it is a fixed relation on the two values
+pub uninterp spec fn f64_gt(a: f64, b: f64) -> bool;
+#[verifier::external_body]
+pub fn verif_f64_gt(a: f64, b: f64) -> (r: bool) ensures r == f64_gt(a, b) { unimplemented!() }
+/// chrono::Local::now().time().hour(): the local hour of day (0..=23); the clock is an input the contracts quantify over
+pub mod chrono {
+    use vstd::prelude::*;
+    #[verifier::external_body]
+    pub struct DateTime { k: usize }
+    #[verifier::external_body]
+    pub struct NaiveTime { k: usize }
+    pub struct Local;
+    impl Local {
+        #[verifier::external_body]
+        pub fn now() -> DateTime { unimplemented!() }
+    }
+    impl DateTime {
+        #[verifier::external_body]
+        pub fn time(&self) -> NaiveTime { unimplemented!() }
+    }
+    impl NaiveTime {
+        pub uninterp spec fn spec_hour(&self) -> u32;
+        #[verifier::external_body]
+        pub fn hour(&self) -> (r: u32) ensures r == self.spec_hour(), r < 24 { unimplemented!() }
+    }
 }
 
 /// the map a storage engine denotes in a given World (ghost; the engine-specific definition is given next to the engine)
